@@ -74,8 +74,27 @@ func (rd *Round) EndToEnd() string {
 	if err != nil {
 		return "cannot open the index: " + err.Error()
 	}
-	if strings.Join(listed, "\x00") != strings.Join(want, "\x00") {
-		return fmt.Sprintf("searchable repositories %q, discovered %q", listed, want)
+	// one repository = the shards of one build: every shard that lists a name must come from the same build
+	builds := map[string]map[string]bool{}
+	for _, o := range rd.After {
+		if builds[o.Name] == nil {
+			builds[o.Name] = map[string]bool{}
+		}
+		builds[o.Name][o.BuildID] = true
+	}
+	var names []string
+	seen := map[string]bool{}
+	for _, n := range listed {
+		if !seen[n] {
+			seen[n] = true
+			names = append(names, n)
+		}
+		if len(builds[n]) > 1 {
+			return fmt.Sprintf("repository %q is searchable from %d different builds (shards %q)", n, len(builds[n]), listed)
+		}
+	}
+	if strings.Join(names, "\x00") != strings.Join(want, "\x00") {
+		return fmt.Sprintf("searchable repositories %q, discovered %q", names, want)
 	}
 	for _, d := range rd.Desired {
 		in := rd.instAt(d.Source)
